@@ -1004,3 +1004,246 @@ func dependsOnValue(v, target ssa.Value, depth int) bool {
 	}
 	return walk(v, 0)
 }
+
+// =============================================================================================
+// batch 3 (seeded round 8)
+
+func init() {
+	addRule("C16", Rule{ID: "C16.R12", Min: 2, Statement: "Deploy hands an error of a step that talks to the API server (constraint check, deployment reconcile) on to its caller: such a failure is never reported as success", Run: deployAPIErrorsReturnedRule})
+	snf := "the preflight check of an ObjectTemplate's source or target sees the namespace the user wrote: the object's namespace is defaulted only after the check"
+	addRule("C18", Rule{ID: "C18.R12", Min: 2, Statement: snf, Run: preflightBeforeNamespaceDefaultRule})
+	addRule("C11", Rule{ID: "C11.R10", Min: 2, Statement: snf, Run: preflightBeforeNamespaceDefaultRule})
+	addRule("C19", Rule{ID: "C19.R11", Min: 1, Statement: "a map keyed by an interface type is only indexed with values of hashable concrete types (indexing with an unhashable dynamic value panics)", Run: interfaceKeyedMapRule})
+}
+
+// talksToAPI: fn (or a module function it calls statically, bounded) calls a controller-runtime reader/writer.
+func (p *Program) talksToAPI(fn *ssa.Function, depth int, seen map[*ssa.Function]bool) bool {
+	if fn == nil || len(fn.Blocks) == 0 || seen[fn] {
+		return false
+	}
+	seen[fn] = true
+	for _, call := range callsIn(fn) {
+		if isReaderGet(call.Common) {
+			return true
+		}
+		if _, ok := classifyWriter(call); ok {
+			return true
+		}
+		if call.Common.IsInvoke() && call.Common.Method.Name() == "List" && strings.HasPrefix(namedTypeString(call.Common.Value.Type()), pkgClient+".") {
+			return true
+		}
+		if callee := staticCallee(call.Common); callee != nil && depth > 0 && strings.HasPrefix(funcPkgPath(callee), modPKO) {
+			if p.talksToAPI(callee, depth-1, seen) {
+				return true
+			}
+		}
+	}
+	return false
+}
+
+func deployAPIErrorsReturnedRule(c *Ctx) {
+	p := c.P
+	n := 0
+	for _, fn := range p.FuncsIn(pkgPkgDeploy) {
+		if fn.Parent() != nil || fn.Signature.Recv() == nil || stableName(fn) != "Deploy" || !strings.HasSuffix(namedTypeString(fn.Signature.Recv().Type()), ".PackageDeployer") {
+			continue
+		}
+		cases := p.returnCases(fn)
+		for _, call := range callsIn(fn) {
+			ci, ok := call.Instr.(*ssa.Call)
+			if !ok {
+				continue
+			}
+			api := false
+			if callee := staticCallee(call.Common); callee != nil && strings.HasPrefix(funcPkgPath(callee), modPKO) {
+				api = p.talksToAPI(callee, 3, map[*ssa.Function]bool{})
+			}
+			if call.Common.IsInvoke() && call.Common.Method.Name() == "Reconcile" {
+				api = true
+			}
+			if !api {
+				continue
+			}
+			n++
+			o := c.Ob(fn, "api-error-returned:"+calleeName(call.Common), ci, c.rule.Statement)
+			var bad []string
+			for _, rc := range cases {
+				failed := false
+				for _, f := range rc.Facts {
+					if x, nonNil, ok := errNilTest(f.Cond); ok && f.Pol == nonNil && p.valueIsResultOf(x, ci) {
+						failed = true
+					}
+				}
+				if !failed || len(rc.Results) == 0 {
+					continue
+				}
+				last := rc.Results[len(rc.Results)-1]
+				if last != nil && isNilConst(stripConv(last)) {
+					bad = append(bad, p.IPos(rc.Ret))
+				}
+			}
+			if len(bad) > 0 {
+				sort.Strings(bad)
+				o.Fail("when %s fails, Deploy returns nil at %s: the unpack reconciler takes that for success and records the spec hash as unpacked, so a package that hit a transient API error is never rolled out and never retried", calleeName(call.Common), strings.Join(dedupStrings(bad), ", "))
+			} else {
+				o.OK()
+			}
+		}
+	}
+	if n == 0 {
+		c.AnchorLost("API-facing steps of PackageDeployer.Deploy")
+	}
+}
+
+// ---------------------------------------------------------------------------------------------
+// C18.R12 / C11.R10
+
+func preflightBeforeNamespaceDefaultRule(c *Ctx) {
+	p := c.P
+	n := 0
+	for _, fn := range p.FuncsIn(pkgObjTemplate) {
+		for _, call := range callsIn(fn) {
+			if calleeName(call.Common) != "Check" {
+				continue
+			}
+			rt := ""
+			if call.Common.IsInvoke() {
+				rt = namedTypeString(call.Common.Value.Type())
+			} else if callee := staticCallee(call.Common); callee != nil {
+				rt = funcPkgPath(callee)
+			}
+			if !strings.Contains(rt, "/preflight") && !strings.Contains(strings.ToLower(rt), "preflight") {
+				continue
+			}
+			args := callArgs(call.Common)
+			if len(args) < 3 {
+				continue
+			}
+			obj := args[2]
+			n++
+			o := c.Ob(fn, "checked-before-defaulting", call.Instr, c.rule.Statement)
+			bad := ""
+			for _, other := range callsIn(fn) {
+				if calleeName(other.Common) != "SetNamespace" {
+					continue
+				}
+				r := callRecv(other.Common)
+				if r == nil || p.objectRootKey(r) != p.objectRootKey(obj) {
+					continue
+				}
+				if canPrecede(other.Instr, call.Instr) && p.namespaceFromAnotherObject(other.Common) {
+					bad = p.IPos(other.Instr)
+				}
+			}
+			if bad != "" {
+				o.Fail("the namespace of the checked object is overwritten at %s before the preflight check runs: a source (or target) the user placed in a foreign namespace is silently moved into the ObjectTemplate's namespace, the namespace-escalation check can never fire, and the same-named object of the own namespace is read instead", bad)
+			} else {
+				o.OK()
+			}
+		}
+	}
+	if n == 0 {
+		c.AnchorLost("preflight Check calls in " + pkgObjTemplate)
+	}
+}
+
+// namespaceFromAnotherObject: SetNamespace(y.GetNamespace()) with y another object than the receiver
+// (defaulting from the owner); setting the namespace from the user's own spec is not.
+func (p *Program) namespaceFromAnotherObject(cc *ssa.CallCommon) bool {
+	args := callArgs(cc)
+	s := callRecv(cc)
+	if len(args) != 1 || s == nil {
+		return false
+	}
+	for _, pv := range p.possibleValues(args[0]) {
+		g, _ := asCall(pv)
+		if g == nil || calleeName(g.Common()) != "GetNamespace" {
+			continue
+		}
+		if r := callRecv(g.Common()); r != nil && p.objectRootKey(r) != p.objectRootKey(s) {
+			return true
+		}
+	}
+	return false
+}
+
+// ---------------------------------------------------------------------------------------------
+// C19.R11
+
+func hashableConcrete(t types.Type) bool {
+	switch u := t.Underlying().(type) {
+	case *types.Basic:
+		return true
+	case *types.Pointer, *types.Chan:
+		return true
+	case *types.Struct:
+		for i := 0; i < u.NumFields(); i++ {
+			if !hashableConcrete(u.Field(i).Type()) {
+				return false
+			}
+		}
+		return true
+	case *types.Array:
+		return hashableConcrete(u.Elem())
+	}
+	return false // interface (dynamic type unknown), map, slice, func
+}
+
+func interfaceKeyedMapRule(c *Ctx) {
+	p := c.P
+	n, lookups := 0, 0
+	for _, fn := range p.productFuncs() {
+		if isAPITypesPkg(funcPkgPath(fn)) || strings.Contains(fn.Name(), "DeepCopy") {
+			continue
+		}
+		for _, b := range fn.Blocks {
+			for _, in := range b.Instrs {
+				var m, key ssa.Value
+				switch x := in.(type) {
+				case *ssa.Lookup:
+					m, key = x.X, x.Index
+				case *ssa.MapUpdate:
+					m, key = x.Map, x.Key
+				default:
+					continue
+				}
+				mt, ok := m.Type().Underlying().(*types.Map)
+				if !ok {
+					continue
+				}
+				lookups++
+				if _, isTP := types.Unalias(mt.Key()).(*types.TypeParam); isTP {
+					continue // generic code: the key type is fixed (and comparable) at instantiation
+				}
+				if _, isIface := mt.Key().Underlying().(*types.Interface); !isIface {
+					continue
+				}
+				n++
+				o := c.Ob(fn, "interface-key", in, c.rule.Statement)
+				okAll := true
+				what := ""
+				for _, pv := range p.possibleValues(key) {
+					mi, isMI := pv.(*ssa.MakeInterface)
+					if k, isConst := pv.(*ssa.Const); isConst && k.Value == nil {
+						continue // nil interface: hashable
+					}
+					if !isMI || !hashableConcrete(mi.X.Type()) {
+						okAll = false
+						what = p.describe(pv)
+					}
+				}
+				if okAll {
+					o.OK()
+				} else {
+					o.Fail("the map is keyed by an interface type and indexed with %s, whose dynamic type is not known to be hashable: a map or list in that position (any JSON value can be) makes the runtime panic with \"hash of unhashable type\" instead of returning an error", what)
+				}
+			}
+		}
+	}
+	o := c.Ob(nil, "map-accesses-scanned", nil, c.rule.Statement)
+	if lookups < 100 {
+		o.Fail("reason=anchor-lost: only %d map accesses seen", lookups)
+	} else {
+		o.OK()
+	}
+}
